@@ -133,6 +133,12 @@ def presentations(ck, rng, recs, paths, base_rows, tier):
     out.append(("first_part_on_stdin", [f(fmt.write_fasta(b))], fmt.write_fasta(a).encode()))
     # everything on stdin
     out.append(("all_on_stdin", [], fmt.write_fasta(recs).encode()))
+    # what kind of object standard input is (pipe above; connected stream socket; redirected regular file) is presentation too
+    if rng.random() < 0.5:
+        out.append(("first_part_on_stdin_socket", [f(fmt.write_fasta(b))], fmt.write_fasta(a).encode()))
+    else:
+        out.append(("all_on_stdin_socket", [], fmt.write_fasta(recs).encode()))
+    out.append(("first_part_on_stdin_redirected_file", [f(fmt.write_fasta(b))], fmt.write_fasta(a).encode()))
     # mixed formats across parts
     if n >= 4:
         arows = gen.insert_gaps(rng, [s for _, s in a], 0.5, "-")
@@ -168,7 +174,12 @@ def run_case(ck, paths, idx, tier):
     base_bytes = res.out_bytes
     for label, files, sin in presentations(ck, rng, recs, paths, base, tier):
         out = ck.tmp(".out")
-        r2 = common.kalign_cli(paths, files, args=kal.type_args(word), nthreads=1, out=out, stdin_data=sin)
+        if "stdin_redirected_file" in label:
+            sf = ck.tmp(".stdin")
+            common.write_bytes(sf, sin)
+            r2 = common.kalign_cli(paths, files, args=kal.type_args(word), nthreads=1, out=out, stdin_file=sf)
+        else:
+            r2 = common.kalign_cli(paths, files, args=kal.type_args(word), nthreads=1, out=out, stdin_data=sin, stdin_socket="stdin_socket" in label)
         cls = re.sub(r"_\d+cols$", "", label.split("_rate")[0].split("_sym")[0])
         c2 = dict(ctx, presentation=label, files=[open(x, "rb").read().decode("latin-1")[:3000] for x in files],
                   stdin=sin.decode("latin-1")[:2000] if sin else None)
